@@ -11,11 +11,14 @@
   in ERROR (fairness = enabled internal steps are eventually taken; wall-clock time is not
   modelled).
 
-  Two configurations of the watcher (`Failure.Cfg`): `codeCfg` — the code as it is, with
-  "fix: the workflow state watcher cannot miss an ERROR" (channel with a buffer of one, root
-  state re-read after every receive) — and `legacyCfg`, the code before it (finding
-  notify_dropped). `C03_watcher_is_code` ties `codeCfg` to the source: it breaks when the
-  repair is reverted.
+  Configurations (`Failure.Cfg`): `codeCfg` — the code as it is, with "fix: the workflow state
+  watcher cannot miss an ERROR" (channel with a buffer of one, root state re-read after every
+  receive) and the two repairs of handleDeviceEvent's TASK_INTERNAL_ERROR case (the role is told
+  ERROR in every environment state; STOP_ACTIVITY is requested only for a critical task) —,
+  `deviceLegacyCfg`, the code before those two (findings internal_error_ignored_unless_running,
+  internal_error_noncritical_stops_run), and `legacyCfg`, the code before all of them (finding
+  notify_dropped). `C03_watcher_is_code` and `C03_internal_effect_is_code` tie `codeCfg` to the
+  source: they break when a repair is reverted.
 -/
 import ControlModel.Gen.FailureFacts
 import ControlModel.Proofs.Failure
@@ -32,11 +35,12 @@ def Failure.Kind.mesos? : Kind → Option String
 
 /-- `effect` for a terminal Mesos status IS the case table of task.Manager.handleMessage
     (state literal) and updateTaskStatus (INACTIVE); the ERROR rows are the ones guarded by
-    `t.IsLocked()` (an owned task — every task of a live environment). -/
-theorem C03_status_effect_is_code (k : Kind) (n : String) (st : St) (h : k.mesos? = some n) :
-    (∃ row ∈ Gen.C03.statusState, row.1 = n ∧ TState.parse? row.2.1 = (effect k st).st ∧ row.2.2 = k.hard) ∧
-    n ∈ Gen.C03.inactiveOn ∧ (effect k st).su = some .INACTIVE ∧ (effect k st).stop = false := by
-  cases k <;> simp [Kind.mesos?] at h <;> subst h <;> cases st <;> decide
+    `t.IsLocked()` (an owned task — every task of a live environment). Whatever the
+    configuration, the environment's state and the task's criticality. -/
+theorem C03_status_effect_is_code (c : Cfg) (k : Kind) (n : String) (st : St) (crit : Bool) (h : k.mesos? = some n) :
+    (∃ row ∈ Gen.C03.statusState, row.1 = n ∧ TState.parse? row.2.1 = (effect c k st crit).st ∧ row.2.2 = k.hard) ∧
+    n ∈ Gen.C03.inactiveOn ∧ (effect c k st crit).su = some .INACTIVE ∧ (effect c k st crit).stop = false := by
+  cases k <;> simp [Kind.mesos?] at h <;> subst h <;> rw [effect_cfg_blind c _ st crit (by decide)] <;> cases st <;> decide
 
 /-- A terminal state learnt ONLY through the master's reconciliation answer after a
     re-subscription (the task died while the core was cut off) has the effect of the same
@@ -46,30 +50,49 @@ theorem C03_status_effect_is_code (k : Kind) (n : String) (st : St) (h : k.mesos
     `updateTaskStatus` (INACTIVE) is reached by every update about a task that is in the
     roster (only the KILL of tasks NOT in the roster looks at the reason). Moving the
     handling of reconciliation updates into a branch of its own makes this theorem false. -/
-theorem C03_reconciled_effect_is_code (k : Kind) (st : St) (h : k.viaReconciliation = true) :
+theorem C03_reconciled_effect_is_code (c : Cfg) (k : Kind) (st : St) (crit : Bool) (h : k.viaReconciliation = true) :
     Gen.C03.statusStateReasonBlind = true ∧ Gen.C03.statusUpdateReachesRosterTasks = true ∧
     k.direct.viaReconciliation = false ∧ k.mesos?.isSome = true ∧ k.mesos? = k.direct.mesos? ∧
-    effect k st = effect k.direct st ∧ k.hard = k.direct.hard := by
-  cases k <;> simp [Kind.viaReconciliation] at h <;> cases st <;> decide
+    effect c k st crit = effect c k.direct st crit ∧ k.hard = k.direct.hard := by
+  cases k <;> simp [Kind.viaReconciliation] at h <;>
+    rw [effect_cfg_blind c _ st crit (by decide), effect_cfg_blind c _ st crit (by decide)] <;> cases st <;> decide
 
 /-- `effect` for a lost executor / agent IS HandleExecutorFailed / HandleAgentFailed. -/
-theorem C03_lost_effect_is_code (st : St) :
-    TState.parse? Gen.C03.execState = (effect .EXEC st).st ∧ TState.parse? Gen.C03.execState = (effect .EXEC0 st).st ∧
-    TState.parse? Gen.C03.agentState = (effect .AGENT st).st ∧ TState.parse? Gen.C03.agentState = (effect .AGENT0 st).st ∧
+theorem C03_lost_effect_is_code (c : Cfg) (st : St) (crit : Bool) :
+    TState.parse? Gen.C03.execState = (effect c .EXEC st crit).st ∧ TState.parse? Gen.C03.execState = (effect c .EXEC0 st crit).st ∧
+    TState.parse? Gen.C03.agentState = (effect c .AGENT st crit).st ∧ TState.parse? Gen.C03.agentState = (effect c .AGENT0 st crit).st ∧
     Gen.C03.execInactive = true ∧ Gen.C03.agentInactive = true ∧
-    (effect .EXEC st).su = some .INACTIVE ∧ (effect .EXEC0 st).su = some .INACTIVE ∧
-    (effect .AGENT st).su = some .INACTIVE ∧ (effect .AGENT0 st).su = some .INACTIVE := by
+    (effect c .EXEC st crit).su = some .INACTIVE ∧ (effect c .EXEC0 st crit).su = some .INACTIVE ∧
+    (effect c .AGENT st crit).su = some .INACTIVE ∧ (effect c .AGENT0 st crit).su = some .INACTIVE := by
+  rw [effect_cfg_blind c .EXEC st crit (by decide), effect_cfg_blind c .EXEC0 st crit (by decide),
+    effect_cfg_blind c .AGENT st crit (by decide), effect_cfg_blind c .AGENT0 st crit (by decide)]
   cases st <;> decide
 
-/-- `effect` for TASK_INTERNAL_ERROR IS the branch of handleDeviceEvent: guarded by the
-    environment's state being the literal "RUNNING", role told ERROR, STOP_ACTIVITY
-    requested, the task's criticality never consulted. -/
-theorem C03_internal_effect_is_code (st : St) :
+/-- `effect codeCfg` for TASK_INTERNAL_ERROR IS the case of handleDeviceEvent, read off the
+    GUARD STACKS go/ast finds for its two calls (conditions of the enclosing `if`s and negated
+    conditions of earlier `if C { …; return }` statements): the role update
+    `<parent>.UpdateState(sm.ERROR)` — exactly one, under no test of the environment's state and
+    no test of the task's criticality (nil tests only) —, and the STOP request
+    `env.TryTransition(NewStopActivityTransition(…))` — exactly one, under the test of the
+    environment's state against the literal "RUNNING" AND under a positive test of the task's
+    criticality, nothing else —, both in one goroutine, the role update first; the status is not
+    touched. For every state of the environment and either criticality.
+    Reverting "fix: TASK_INTERNAL_ERROR of a non-critical task does not stop the run" makes
+    `internalStopNeedsCritical` false, reverting "fix: a task's TASK_INTERNAL_ERROR reaches its role
+    in every environment state" makes `internalRoleNeedsRunning` true: either way this theorem
+    is false. -/
+theorem C03_internal_effect_is_code (st : St) (crit : Bool) :
     St.parse? Gen.C03.internalGuard = some .RUNNING ∧
-    (effect .INTERNAL st).st = (if some st = St.parse? Gen.C03.internalGuard ∧ Gen.C03.internalUpdatesRole then some .ERROR else none) ∧
-    (effect .INTERNAL st).stop = (decide (some st = St.parse? Gen.C03.internalGuard) && Gen.C03.internalStops) ∧
-    (effect .INTERNAL st).su = none ∧ Gen.C03.internalLooksAtCritical = false := by
-  cases st <;> decide
+    (effect codeCfg .INTERNAL st crit).st =
+      (if Gen.C03.internalUpdatesRole ∧ (Gen.C03.internalRoleNeedsRunning = false ∨ some st = St.parse? Gen.C03.internalGuard) ∧
+          (Gen.C03.internalRoleNeedsCritical = false ∨ crit = true) then some .ERROR else none) ∧
+    (effect codeCfg .INTERNAL st crit).stop =
+      (Gen.C03.internalStops && (!Gen.C03.internalStopNeedsRunning || decide (some st = St.parse? Gen.C03.internalGuard)) &&
+        (!Gen.C03.internalStopNeedsCritical || crit)) ∧
+    (effect codeCfg .INTERNAL st crit).su = none ∧
+    Gen.C03.internalRoleOther = false ∧ Gen.C03.internalStopOther = false ∧ Gen.C03.internalRoleBeforeStop = true ∧
+    Gen.C03.internalRoleNeedsRunning = !codeCfg.roleAlways ∧ Gen.C03.internalStopNeedsCritical = codeCfg.stopAsksCritical := by
+  cases st <;> cases crit <;> decide
 
 /-- `notify`, `updState`'s critical filter, `Watch` and `codeCfg` ARE the shapes found in
     parentadapter.go, taskrole.go and subscribeToWfState: non-blocking send, critical-only
@@ -399,15 +422,12 @@ theorem exists_maximal_run (c : Cfg) (n : Nat) (s : Sys) (hn : budget s ≤ n) :
 
 /-! ## the ERROR notification -/
 
-theorem drives_effect (k : Kind) (st : St) (h : k.drives st = true) : (effect k st).st = some .ERROR := by
-  simpa [Kind.drives] using h
-
 /-- Unbuffered channel, watcher at its receive: the failure of a critical task arms the watcher. -/
 theorem failOne_arms (c : Cfg) (hb : c.buffered = false) (s : Sys) (k : Kind) (p : List Nat) (hw : s.w = .parked)
-    (hcrit : critLeafAt s.f p = true) (hk : k.drives s.env.st = true) :
+    (hcrit : critLeafAt s.f p = true) (hk : k.drives c s.env.st = true) :
     (failOne c k s p true).w = .armed := by
   unfold failOne
-  simp only [drives_effect k _ hk, updState_crit_error s.f p hcrit]
+  simp only [drives_effect c k _ hk, updState_crit_error s.f p hcrit]
   exact notify_error_ready c _ hb hw
 
 /-- …and the root of the role tree says ERROR (C11's fold: ERROR of a critical leaf dominates). -/
@@ -453,7 +473,7 @@ theorem fail_budget (c : Cfg) (k : Kind) (s : Sys) (vs : List (List Nat × Bool)
     happens to the notifications of the others (dropped, or sent after the watcher has left
     its loop). -/
 theorem fail_arms (c : Cfg) (hb : c.buffered = false) (k : Kind) (s : Sys) (vs : List (List Nat × Bool))
-    (hw : s.w = .parked ∨ s.w = .armed) (hk : k.drives s.env.st = true)
+    (hw : s.w = .parked ∨ s.w = .armed) (hk : k.drives c s.env.st = true)
     (h : s.w = .armed ∨ ∃ p, (p, true) ∈ vs ∧ critLeafAt s.f p = true) :
     (fail c k s vs).w = .armed := by
   induction vs generalizing s with
@@ -465,7 +485,7 @@ theorem fail_arms (c : Cfg) (hb : c.buffered = false) (k : Kind) (s : Sys) (vs :
     obtain ⟨q, r⟩ := v
     simp only [fail]
     have henv : (failOne c k s q r).env = s.env := (failOne_frame c k s q r).1
-    have hk' : k.drives (failOne c k s q r).env.st = true := by rw [henv]; exact hk
+    have hk' : k.drives c (failOne c k s q r).env.st = true := by rw [henv]; exact hk
     obtain ⟨w1, w2⟩ := failOne_w c k s q r hb hk
     rcases hw with hw | hw
     · -- parked
@@ -494,7 +514,7 @@ theorem fail_arms (c : Cfg) (hb : c.buffered = false) (k : Kind) (s : Sys) (vs :
       (3) such a run exists (so (2) is not vacuous). -/
 theorem C03_critical_to_error_partial (c : Cfg) (hb : c.buffered = false) (s : Sys) (k : Kind)
     (vs : List (List Nat × Bool))
-    (hlive : Live s) (hk : k.drives s.env.st = true)
+    (hlive : Live s) (hk : k.drives c s.env.st = true)
     (hcrit : ∃ p, (p, true) ∈ vs ∧ critLeafAt s.f p = true) :
     let s1 := fail c k s vs
     s1.w = .armed ∧ budget s1 ≤ budget s + 3 * vs.length + 2 ∧
@@ -513,7 +533,7 @@ theorem C03_critical_to_error_partial (c : Cfg) (hb : c.buffered = false) (s : S
 
 /-- The single-victim reading. -/
 theorem C03_critical_to_error (c : Cfg) (hb : c.buffered = false) (s : Sys) (k : Kind) (p : List Nat) (ls : List Label)
-    (hlive : Live s) (hcrit : critLeafAt s.f p = true) (hk : k.drives s.env.st = true)
+    (hlive : Live s) (hcrit : critLeafAt s.f p = true) (hk : k.drives c s.env.st = true)
     (hv : validRun c (failOne c k s p true) ls = true) (hq : quiescent (irun c (failOne c k s p true) ls) = true) :
     (irun c (failOne c k s p true) ls).env.st = .ERROR ∧ ls.length ≤ budget s + 5 := by
   obtain ⟨_, hbud, h, _⟩ := C03_critical_to_error_partial c hb s k [(p, true)] hlive hk ⟨p, List.mem_singleton.mpr rfl, hcrit⟩
@@ -660,7 +680,7 @@ theorem fail_keeps (c : Cfg) (hb : c.buffered = true) (k : Kind) (s : Sys) (vs :
 /-- Buffered channel: one failure hitting any number of tasks, ONE of them critical, leaves an
     ERROR in the watcher's channel if that was empty — whatever the `ready` bits. -/
 theorem fail_kept (c : Cfg) (hb : c.buffered = true) (k : Kind) (s : Sys) (vs : List (List Nat × Bool))
-    (hw : s.w = .parked) (hk : k.drives s.env.st = true)
+    (hw : s.w = .parked) (hk : k.drives c s.env.st = true)
     (h : s.chan = some .ERROR ∨ (s.chan = none ∧ ∃ p r, (p, r) ∈ vs ∧ critLeafAt s.f p = true)) :
     (fail c k s vs).chan = some .ERROR := by
   induction vs generalizing s with
@@ -672,7 +692,7 @@ theorem fail_kept (c : Cfg) (hb : c.buffered = true) (k : Kind) (s : Sys) (vs : 
     obtain ⟨q, r⟩ := v
     simp only [fail]
     have henv : (failOne c k s q r).env = s.env := (failOne_frame c k s q r).1
-    have hk' : k.drives (failOne c k s q r).env.st = true := by rw [henv]; exact hk
+    have hk' : k.drives c (failOne c k s q r).env.st = true := by rw [henv]; exact hk
     obtain ⟨kw, kc⟩ := failOne_keeps c k s q r hb
     have hw' : (failOne c k s q r).w = .parked := kw.trans hw
     rcases h with h | ⟨hn, p, r', hp, hc⟩
@@ -698,7 +718,7 @@ theorem fail_kept (c : Cfg) (hb : c.buffered = true) (k : Kind) (s : Sys) (vs : 
     (`C03_critical_to_error_code`). -/
 def C03_critical_to_error_full (c : Cfg) : Prop :=
   ∀ (s : Sys) (k : Kind) (vs : List (List Nat × Bool)) (ls : List Label),
-    Live s → k.drives s.env.st = true → (∃ p r, (p, r) ∈ vs ∧ critLeafAt s.f p = true) →
+    Live s → k.drives c s.env.st = true → (∃ p r, (p, r) ∈ vs ∧ critLeafAt s.f p = true) →
     validRun c (fail c k s vs) ls = true →
     (s.chan = none ∨ rootHolds c (fail c k s vs) ls = true) →
     quiescent (irun c (fail c k s vs) ls) = true →
@@ -709,7 +729,7 @@ def C03_critical_to_error_full (c : Cfg) : Prop :=
     failure; when none is enabled any more the environment is in ERROR; such a run exists. -/
 theorem C03_critical_to_error_buffered (c : Cfg) (hb : c.buffered = true) (hr : c.reread = true)
     (s : Sys) (k : Kind) (vs : List (List Nat × Bool))
-    (hlive : Live s) (hk : k.drives s.env.st = true)
+    (hlive : Live s) (hk : k.drives c s.env.st = true)
     (hcrit : ∃ p r, (p, r) ∈ vs ∧ critLeafAt s.f p = true) :
     let s1 := fail c k s vs
     budget s1 ≤ budget s + 3 * vs.length + 2 ∧
@@ -747,7 +767,7 @@ theorem C03_critical_to_error_code : C03_critical_to_error_full codeCfg := by
 
 /-! ## C03: the task died while the core was cut off from the master -/
 
-theorem effect_direct (k : Kind) (st : St) : effect k.direct st = effect k st := by
+theorem effect_direct (c : Cfg) (k : Kind) (st : St) (crit : Bool) : effect c k.direct st crit = effect c k st crit := by
   cases k <;> rfl
 
 /-- For EVERY system, kind and victim list: a failure learnt through reconciliation IS the
@@ -756,8 +776,8 @@ theorem effect_direct (k : Kind) (st : St) : effect k.direct st = effect k st :=
     the premises `drives` / `quiet` / `hard` are the direct kind's. -/
 theorem C03_reconciled_as_direct (c : Cfg) (k : Kind) (s : Sys) (vs : List (List Nat × Bool)) :
     fail c k s vs = fail c k.direct s vs ∧
-    (∀ st, k.drives st = k.direct.drives st ∧ k.quiet st = k.direct.quiet st) ∧ k.hard = k.direct.hard := by
-  refine ⟨?_, fun st => by simp [Kind.drives, Kind.quiet, effect_direct], by cases k <;> rfl⟩
+    (∀ st crit, k.drives c st = k.direct.drives c st ∧ k.quiet c st crit = k.direct.quiet c st crit) ∧ k.hard = k.direct.hard := by
+  refine ⟨?_, fun st crit => by simp [Kind.drives, Kind.quiet, effect_direct], by cases k <;> rfl⟩
   induction vs generalizing s with
   | nil => rfl
   | cons v vs ih =>
@@ -770,8 +790,8 @@ theorem C03_reconciled_as_direct (c : Cfg) (k : Kind) (s : Sys) (vs : List (List
 
 /-- A terminal state other than TASK_FINISHED learnt through reconciliation drives, whatever
     the environment's state. -/
-theorem reconciled_hard_drives (k : Kind) (st : St) (h : k.viaReconciliation = true) (hk : k.hard = true) :
-    k.drives st = true := by
+theorem reconciled_hard_drives (c : Cfg) (k : Kind) (st : St) (h : k.viaReconciliation = true) (hk : k.hard = true) :
+    k.drives c st = true := by
   cases k <;> simp [Kind.viaReconciliation, Kind.hard] at h hk <;> rfl
 
 /-- **Critical task dead while the core was cut off ⇒ ERROR.** For every live system, every
@@ -790,7 +810,7 @@ theorem C03_reconciled_critical_to_error (s : Sys) (k : Kind) (vs : List (List N
         (irun codeCfg s1 ls).env.st = .ERROR)) ∧
     (∃ ls, validRun codeCfg s1 ls = true ∧ quiescent (irun codeCfg s1 ls) = true) := by
   obtain ⟨hb, h, hex⟩ := C03_critical_to_error_buffered codeCfg rfl rfl s k vs hlive
-    (reconciled_hard_drives k s.env.st hrec hk) hcrit
+    (reconciled_hard_drives codeCfg k s.env.st hrec hk) hcrit
   refine ⟨fun ls hv => ?_, hex⟩
   obtain ⟨h1, h2⟩ := h ls hv
   exact ⟨by omega, h2⟩
@@ -851,29 +871,32 @@ theorem C03_error_stable (c : Cfg) (s : Sys) (ls : List Label) (he : s.env.st = 
 
 /-! ## C03: non-critical ⇒ nothing -/
 
-/-- FULL-STRENGTH statement (FALSE of the code, see
-    `C03_finding_internal_error_noncritical_stops_run`): the failure of a non-critical task
-    of a quiet live environment never changes the environment's state. -/
+/-- FULL-STRENGTH statement: the failure — of ANY kind — of a non-critical task of a quiet
+    live environment never changes the environment's state. TRUE of the code as it is
+    (`C03_noncritical_inert_code`), FALSE of the code as it was before "fix: TASK_INTERNAL_ERROR
+    of a non-critical task does not stop the run" (`C03_finding_internal_error_noncritical_stops_run`). -/
 def C03_noncritical_inert_full (c : Cfg) : Prop :=
   ∀ (s : Sys) (k : Kind) (p : List Nat) (ready : Bool) (ls : List Label),
     Live s → quiescent s = true → plainLeafAt s.f p = true →
     validRun c (failOne c k s p ready) ls = true → (irun c (failOne c k s p ready) ls).env.st = s.env.st
 
-/-- What IS proved (every configuration): for every kind that does not queue a STOP
-    (`Kind.quiet`: all of them except TASK_INTERNAL_ERROR while RUNNING) the failure of a
+/-- What is proved for EVERY configuration: for every kind that does not queue a STOP
+    (`Kind.quiet`: all of them in the code as it is, `quiet_code`; all except
+    TASK_INTERNAL_ERROR while RUNNING in the code as it was) the failure of a
     non-critical task changes NOTHING outside that task's own role: environment, watcher, its
     channel, mutex holder, queued requests are untouched, no notification is sent, the fold
     of the critical leaves (what C11 proves every aggregator reports) is unchanged, exactly
     the same internal steps are enabled as before, and an idle environment stays idle — its
     state can never change as a consequence. Any schedule, any watcher position. -/
 theorem C03_noncritical_inert_partial (c : Cfg) (s : Sys) (k : Kind) (p : List Nat) (ready : Bool)
-    (hplain : plainLeafAt s.f p = true) (hq : k.quiet s.env.st = true) :
+    (hplain : plainLeafAt s.f p = true) (hq : k.quiet c s.env.st false = true) :
     let s1 := failOne c k s p ready
     s1.env = s.env ∧ s1.w = s.w ∧ s1.chan = s.chan ∧ s1.inflight = s.inflight ∧ s1.stopReq = s.stopReq ∧
     s1.dropped = s.dropped ∧ S s1.f = S s.f ∧
     (∀ l, enabled s1 l = enabled s l) ∧
     (quiescent s = true → ∀ ls, validRun c s1 ls = true → ls = [] ∧ (irun c s1 ls).env.st = s.env.st) := by
-  have hstop : (effect k s.env.st).stop = false := by simpa [Kind.quiet] using hq
+  have hcf : critLeafAt s.f p = false := plain_not_crit s.f p hplain
+  have hstop : (effect c k s.env.st (critLeafAt s.f p)).stop = false := by rw [hcf]; simpa [Kind.quiet] using hq
   obtain ⟨fe, fi, _, fs, fu⟩ := failOne_frame c k s p ready
   rw [hstop] at fs
   simp only [Bool.false_eq_true, if_false, Nat.add_zero] at fs
@@ -882,16 +905,16 @@ theorem C03_noncritical_inert_partial (c : Cfg) (s : Sys) (k : Kind) (p : List N
       (failOne c k s p ready).dropped = s.dropped ∧ S (failOne c k s p ready).f = S s.f := by
     unfold failOne
     simp only
-    cases hst : (effect k s.env.st).st with
+    cases hst : (effect c k s.env.st (critLeafAt s.f p)).st with
     | none =>
       simp only [notify_none]
-      cases hsu : (effect k s.env.st).su with
+      cases hsu : (effect c k s.env.st (critLeafAt s.f p)).su with
       | none => exact ⟨by first | rfl | trivial, by first | rfl | trivial, by first | rfl | trivial, by first | rfl | trivial⟩
       | some su => exact ⟨by first | rfl | trivial, by first | rfl | trivial, by first | rfl | trivial, updStatus_S _ _ _⟩
     | some st =>
       simp only [hnone st, notify_none]
       have hS : S (updState s.f p st).1 = S s.f := (upd_top s.f p st).1 (hnone st)
-      cases hsu : (effect k s.env.st).su with
+      cases hsu : (effect c k s.env.st (critLeafAt s.f p)).su with
       | none => exact ⟨by first | rfl | trivial, by first | rfl | trivial, by first | rfl | trivial, hS⟩
       | some su => exact ⟨by first | rfl | trivial, by first | rfl | trivial, by first | rfl | trivial, by rw [updStatus_S]; exact hS⟩
   have hen : ∀ l, enabled (failOne c k s p ready) l = enabled s l := by
@@ -909,6 +932,26 @@ theorem C03_noncritical_inert_partial (c : Cfg) (s : Sys) (k : Kind) (p : List N
     have hidle := quiescent_idle s hqs
     simp only [quiescent, enabled, hidle, Bool.and_eq_true, Bool.not_eq_true'] at hqs
     cases l <;> simp_all [enabled]
+
+/-- **The full-strength statement holds for the code as it is**: every kind of failure —
+    TASK_INTERNAL_ERROR while RUNNING included — of a non-critical task of a quiet live
+    environment leaves no internal step enabled: the environment's state can never change as a
+    consequence (with everything `C03_noncritical_inert_partial` lists: watcher, channel, mutex
+    holder, queued requests, fold of the critical leaves untouched). -/
+theorem C03_noncritical_inert_code : C03_noncritical_inert_full codeCfg := by
+  intro s k p ready ls _ hq hplain hv
+  exact ((C03_noncritical_inert_partial codeCfg s k p ready hplain (quiet_code k s.env.st)).2.2.2.2.2.2.2.2 hq ls hv).2
+
+/-- The same without any premise about the environment (any state, anything in flight, any
+    watcher position): nothing outside the task's own role changes, the same steps stay enabled. -/
+theorem C03_noncritical_untouched_code (s : Sys) (k : Kind) (p : List Nat) (ready : Bool)
+    (hplain : plainLeafAt s.f p = true) :
+    let s1 := failOne codeCfg k s p ready
+    s1.env = s.env ∧ s1.w = s.w ∧ s1.chan = s.chan ∧ s1.inflight = s.inflight ∧ s1.stopReq = s.stopReq ∧
+    s1.dropped = s.dropped ∧ S s1.f = S s.f ∧ (∀ l, enabled s1 l = enabled s l) := by
+  obtain ⟨a1, a2, a3, a4, a5, a6, a7, a8, _⟩ :=
+    C03_noncritical_inert_partial codeCfg s k p ready hplain (quiet_code k s.env.st)
+  exact ⟨a1, a2, a3, a4, a5, a6, a7, a8⟩
 
 /-! ## C03: the end of the run is recorded -/
 
@@ -977,7 +1020,8 @@ theorem C03_notify_dropped_witness :
   decide
 
 /-- The text of the property for EVERY kind of failure (no `Kind.drives`): FALSE of the code as
-    it is, see the two findings below. -/
+    it is — because of TASK_FINISHED alone (open finding finished_not_error, below); for every
+    other kind it holds, `C03_every_failure_to_error_code`. -/
 def C03_every_kind_to_error_full (c : Cfg) : Prop :=
   ∀ (s : Sys) (k : Kind) (vs : List (List Nat × Bool)) (ls : List Label),
     Live s → (∃ p r, (p, r) ∈ vs ∧ critLeafAt s.f p = true) →
@@ -1001,19 +1045,142 @@ theorem C03_finding_reconciled_finished_not_error : ¬ C03_every_kind_to_error_f
     (by decide) rfl (by decide)
   revert this; decide
 
-/-- TASK_INTERNAL_ERROR of a critical task while the environment is CONFIGURED is ignored. -/
-theorem C03_finding_internal_error_ignored_unless_running : ¬ C03_every_kind_to_error_full codeCfg := by
+/-- The text of the property for every kind of failure it names — the process dies, Mesos
+    reports the task failed / lost / killed / in error (directly or through reconciliation),
+    its executor or agent is lost, OR IT ANNOUNCES AN INTERNAL ERROR —, i.e. every `Kind` but
+    exit status 0, with NO hypothesis about what the code does with the kind at that instant
+    (no `Kind.drives`): every live system — CONFIGURED or RUNNING, idle or with any transition
+    in flight —, every set of victims with a critical one, every valid run of internal steps:
+    once nothing more can happen the environment is in ERROR.
+    FALSE of the code as it was (`C03_finding_internal_error_ignored_unless_running`), TRUE of
+    the code as it is (`C03_every_failure_to_error_code`). -/
+def C03_every_failure_to_error_full (c : Cfg) : Prop :=
+  ∀ (s : Sys) (k : Kind) (vs : List (List Nat × Bool)) (ls : List Label),
+    Live s → k.exitZero = false → (∃ p r, (p, r) ∈ vs ∧ critLeafAt s.f p = true) →
+    validRun c (fail c k s vs) ls = true → s.chan = none →
+    quiescent (irun c (fail c k s vs) ls) = true →
+    (irun c (fail c k s vs) ls).env.st = .ERROR
+
+/-- In the code as it is every kind of failure but exit status 0 puts the task's role into
+    ERROR whatever the environment's state is at that instant, and no kind requests a
+    transition on behalf of a non-critical task: the hypotheses `Kind.drives` / `Kind.quiet`
+    of the `_partial` theorems are theorems. -/
+theorem C03_every_failure_drives_code (k : Kind) (st : St) :
+    (k.exitZero = false → k.drives codeCfg st = true) ∧ k.quiet codeCfg st false = true :=
+  ⟨drives_code k st, quiet_code k st⟩
+
+/-- **Holds for the code as it is**, with the bounds: at most `budget` (≤ budget before + 3 per
+    victim + 2) internal steps follow the failure, a run to quiescence exists, and a quiescent
+    system is in ERROR. -/
+theorem C03_every_failure_to_error_bounded (s : Sys) (k : Kind) (vs : List (List Nat × Bool))
+    (hlive : Live s) (hk : k.exitZero = false) (hcrit : ∃ p r, (p, r) ∈ vs ∧ critLeafAt s.f p = true) :
+    let s1 := fail codeCfg k s vs
+    (∀ ls, validRun codeCfg s1 ls = true → ls.length ≤ budget s + 3 * vs.length + 2 ∧
+      ((s.chan = none ∨ rootHolds codeCfg s1 ls = true) → quiescent (irun codeCfg s1 ls) = true →
+        (irun codeCfg s1 ls).env.st = .ERROR)) ∧
+    (∃ ls, validRun codeCfg s1 ls = true ∧ quiescent (irun codeCfg s1 ls) = true) := by
+  obtain ⟨hb, h, hex⟩ := C03_critical_to_error_buffered codeCfg rfl rfl s k vs hlive (drives_code k s.env.st hk) hcrit
+  refine ⟨fun ls hv => ?_, hex⟩
+  obtain ⟨h1, h2⟩ := h ls hv
+  exact ⟨by omega, h2⟩
+
+theorem C03_every_failure_to_error_code : C03_every_failure_to_error_full codeCfg := by
+  intro s k vs ls hlive hk hcrit hv hch hq
+  exact ((C03_every_failure_to_error_bounded s k vs hlive hk hcrit).1 ls hv).2 (Or.inl hch) hq
+
+/-- The code AS IT WAS (finding internal_error_ignored_unless_running, fixed):
+    TASK_INTERNAL_ERROR of a critical task while the environment is CONFIGURED was ignored —
+    nothing was enabled afterwards, the environment stayed CONFIGURED. -/
+theorem C03_finding_internal_error_ignored_unless_running : ¬ C03_every_failure_to_error_full deviceLegacyCfg := by
   intro h
-  have := h wConfigured .INTERNAL [([0, 0], true)] [] wConfigured_live ⟨[0, 0], true, by decide, by decide⟩
+  have := h wConfigured .INTERNAL [([0, 0], true)] [] wConfigured_live rfl ⟨[0, 0], true, by decide, by decide⟩
     (by decide) rfl (by decide)
   revert this; decide
 
-/-- TASK_INTERNAL_ERROR of a NON-critical task while RUNNING stops the run
-    (STOP_ACTIVITY is requested whatever the task's criticality). -/
-theorem C03_finding_internal_error_noncritical_stops_run : ¬ C03_noncritical_inert_full codeCfg := by
+/-- …and it is exactly the test of the environment's state around the role update that did it:
+    with the STOP request already asking for the task's criticality, a role that is told only
+    while RUNNING still refutes the statement. -/
+theorem C03_role_must_be_told_in_every_state : ¬ C03_every_failure_to_error_full { codeCfg with roleAlways := false } := by
+  intro h
+  have := h wConfigured .INTERNAL [([0, 0], true)] [] wConfigured_live rfl ⟨[0, 0], true, by decide, by decide⟩
+    (by decide) rfl (by decide)
+  revert this; decide
+
+/-- The code AS IT WAS (finding internal_error_noncritical_stops_run, fixed):
+    TASK_INTERNAL_ERROR of a NON-critical task while RUNNING stopped the run
+    (STOP_ACTIVITY was requested whatever the task's criticality). -/
+theorem C03_finding_internal_error_noncritical_stops_run : ¬ C03_noncritical_inert_full deviceLegacyCfg := by
   intro h
   have := h wRunning .INTERNAL [0, 1] true [.devStop true true] wRunning_live (by decide) (by decide) (by decide)
   revert this; decide
+
+/-- …and it is exactly the missing look at the task's criticality: with the role told in
+    every state, a STOP request that does not ask still refutes the statement. -/
+theorem C03_stop_must_ask_criticality : ¬ C03_noncritical_inert_full { codeCfg with stopAsksCritical := false } := by
+  intro h
+  have := h wRunning .INTERNAL [0, 1] true [.devStop true true] wRunning_live (by decide) (by decide) (by decide)
+  revert this; decide
+
+/-- What the three witnesses look like before and after the two repairs of the
+    TASK_INTERNAL_ERROR case (the pictures the harness sees on the real core).
+    (1) critical task, environment CONFIGURED and idle: was — nothing (role CONFIGURED,
+        nothing enabled); is — role and root ERROR, status untouched, the watcher's timer runs,
+        environment ERROR, no STOP (no task is RUNNING).
+    (2) critical task, START_ACTIVITY in flight with the other task's reply outstanding
+        (the environment still reports CONFIGURED): was — ignored, the environment becomes
+        RUNNING with a task that has said it is in ERROR; is — START ends, then GO_ERROR: ERROR
+        with both end-of-run stamps.
+    (3) non-critical task, environment RUNNING: was — STOP_ACTIVITY, environment CONFIGURED; is —
+        the task's own role ERROR, nothing enabled, environment RUNNING, root RUNNING.
+    (4) unchanged: critical task, environment RUNNING — role ERROR, STOP_ACTIVITY requested, then
+        the timer: ERROR with both stamps. -/
+theorem C03_internal_error_witness :
+    (let a := fail deviceLegacyCfg .INTERNAL wConfigured [([0, 0], true)]
+     let b := settle codeCfg 12 (fail codeCfg .INTERNAL wConfigured [([0, 0], true)])
+     quiescent a = true ∧ a.env.st = .CONFIGURED ∧ roleStateAt a.f [0, 0] = .CONFIGURED ∧
+     quiescent b = true ∧ b.env.st = .ERROR ∧ roleStateAt b.f [0, 0] = .ERROR ∧ rootState b.f = .ERROR ∧
+     rootStatus b.f = .ACTIVE ∧ b.stopped = []) ∧
+    (let s : Sys := { wConfigured with inflight := some { ev := .START_ACTIVITY, api := true, pending := [([0, 1], .RUNNING)], ok := true } }
+     let a := settle deviceLegacyCfg 12 (fail deviceLegacyCfg .INTERNAL s [([0, 0], true)])
+     let b := settle codeCfg 16 (fail codeCfg .INTERNAL s [([0, 0], true)])
+     Live s ∧ quiescent a = true ∧ a.env.st = .RUNNING ∧
+     quiescent b = true ∧ b.env.st = .ERROR ∧ b.transRes = some (true, .RUNNING) ∧
+     b.env.vars.soeor ≠ .empty ∧ b.env.vars.eoeor ≠ .empty) ∧
+    (let a := settle deviceLegacyCfg 12 (failOne deviceLegacyCfg .INTERNAL wRunning [0, 1] true)
+     let b := failOne codeCfg .INTERNAL wRunning [0, 1] true
+     quiescent a = true ∧ a.env.st = .CONFIGURED ∧
+     quiescent b = true ∧ b.env.st = .RUNNING ∧ roleStateAt b.f [0, 1] = .ERROR ∧ rootState b.f = .RUNNING ∧ b.stopReq = 0) ∧
+    (let b := settle codeCfg 16 (fail codeCfg .INTERNAL wRunning [([0, 0], true)])
+     (fail codeCfg .INTERNAL wRunning [([0, 0], true)]).stopReq = 1 ∧
+     quiescent b = true ∧ b.env.st = .ERROR ∧ b.env.vars.soeor ≠ .empty ∧ b.env.vars.eoeor ≠ .empty) := by
+  refine ⟨by decide, ⟨⟨Or.inl rfl, rfl, fun i hi => by cases hi; decide⟩, by decide⟩, by decide, by decide⟩
+
+/-- The licence of the driver's variant "the failure's update of the role was overwritten before
+    the root looked" (`failOneLost`; the code's non-atomic `updateTaskState`, open finding
+    stale_update_overwrites_error, at instant burst): such a failure leaves the environment
+    machine, the watcher and its channel exactly as they were — the system is still `Live`, the
+    tree has the same critical leaves — and therefore ONE MORE failure of a critical task, of any
+    kind but exit status 0, still takes the environment to ERROR (every valid run, bounded). That
+    is the evidence the harness collects (`(again ERROR)`, harness/props/c03/again.go): a core
+    whose watcher received the ERROR and then did nothing fails it. -/
+theorem C03_overwritten_update_keeps_watcher (k : Kind) (s : Sys) (p : List Nat) (hlive : Live s) :
+    let s1 := failOneLost codeCfg k s p
+    Live s1 ∧ s1.env = s.env ∧ s1.w = s.w ∧ s1.chan = s.chan ∧ s1.inflight = s.inflight ∧
+    (∀ q, critLeafAt s1.f q = critLeafAt s.f q) ∧
+    (∀ (k' : Kind) (vs : List (List Nat × Bool)) (ls : List Label), k'.exitZero = false →
+      (∃ q r, (q, r) ∈ vs ∧ critLeafAt s.f q = true) → validRun codeCfg (fail codeCfg k' s1 vs) ls = true →
+      s.chan = none → quiescent (irun codeCfg (fail codeCfg k' s1 vs) ls) = true →
+      (irun codeCfg (fail codeCfg k' s1 vs) ls).env.st = .ERROR) := by
+  have hcrit : ∀ q, critLeafAt (failOneLost codeCfg k s p).f q = critLeafAt s.f q := by
+    intro q
+    unfold failOneLost
+    simp only
+    cases (effect codeCfg k s.env.st (critLeafAt s.f p)).su <;> simp only [critLeafAt_updStatus]
+  have hl : Live (failOneLost codeCfg k s p) := hlive
+  refine ⟨hl, rfl, rfl, rfl, rfl, hcrit, ?_⟩
+  intro k' vs ls hk hc hv hch hq
+  obtain ⟨q, r, hm, hq'⟩ := hc
+  exact C03_every_failure_to_error_code _ k' vs ls hl hk ⟨q, r, hm, by rw [hcrit]; exact hq'⟩ hv hch hq
 
 /-- LIMIT of `C03_critical_to_error_code`, machine-checked: its premise about the role tree
     cannot be dropped. START_ACTIVITY has ended, the critical task's own reply is still a
@@ -1027,7 +1194,7 @@ theorem C03_limit_error_overwritten_while_channel_full :
     let s : Sys := { wRunning with chan := some .RUNNING, updq := [([0, 0], .RUNNING)] }
     let s1 := failOne codeCfg .FAILED s [0, 0] true
     let ls : List Label := [.apply 0 true, .take, .look]
-    Live s ∧ critLeafAt s.f [0, 0] = true ∧ Kind.FAILED.drives s.env.st = true ∧
+    Live s ∧ critLeafAt s.f [0, 0] = true ∧ Kind.FAILED.drives codeCfg s.env.st = true ∧
     rootState s1.f = .ERROR ∧ s1.dropped = 1 ∧
     validRun codeCfg s1 ls = true ∧ quiescent (irun codeCfg s1 ls) = true ∧ (irun codeCfg s1 ls).env.st = .RUNNING ∧
     rootState (irun codeCfg s1 ls).f = .RUNNING ∧ rootHolds codeCfg s1 ls = false := by
@@ -1057,7 +1224,7 @@ def watcherSubscribed (s : Sys) : Bool := decide (s.w = .parked)
     environment is in ERROR. FALSE of the code: `C03_finding_stale_update_overwrites_error`. -/
 def C03_created_critical_to_error_full (c : Cfg) : Prop :=
   ∀ (s : Sys) (k : Kind) (vs : List (List Nat × Bool)) (ls : List Label),
-    Fresh s → k.drives s.env.st = true → (∃ p r, (p, r) ∈ vs ∧ critLeafAt s.f p = true) →
+    Fresh s → k.drives c s.env.st = true → (∃ p r, (p, r) ∈ vs ∧ critLeafAt s.f p = true) →
     validRun c (fail c k s vs) ls = true →
     quiescent (irun c (fail c k s vs) ls) = true →
     (irun c (fail c k s vs) ls).env.st = .ERROR
@@ -1116,7 +1283,7 @@ theorem C03_stale_update_witness :
     update that overwrites the dead task's role after the ERROR was put into the watcher's
     channel is harmless for the environment: the watcher acts on the value it received.) -/
 theorem C03_created_critical_to_error_partial (s : Sys) (k : Kind) (vs : List (List Nat × Bool))
-    (hf : Fresh s) (hsub : watcherSubscribed s = true) (hk : k.drives s.env.st = true)
+    (hf : Fresh s) (hsub : watcherSubscribed s = true) (hk : k.drives codeCfg s.env.st = true)
     (hcrit : ∃ p r, (p, r) ∈ vs ∧ critLeafAt s.f p = true) :
     let s1 := fail codeCfg k s vs
     (∀ ls, validRun codeCfg s1 ls = true → ls.length ≤ budget s1 ∧
@@ -1139,7 +1306,7 @@ theorem C03_created_critical_to_error_partial (s : Sys) (k : Kind) (vs : List (L
 theorem C03_limit_watcher_subscribes_after_failure :
     let s : Sys := { wConfigured with w := .starting }
     let s1 := failOne codeCfg .FAILED s [0, 0] true
-    Fresh s ∧ s.updq = [] ∧ critLeafAt s.f [0, 0] = true ∧ Kind.FAILED.drives s.env.st = true ∧
+    Fresh s ∧ s.updq = [] ∧ critLeafAt s.f [0, 0] = true ∧ Kind.FAILED.drives codeCfg s.env.st = true ∧
     validRun codeCfg s1 [.subscribe] = true ∧ quiescent (irun codeCfg s1 [.subscribe]) = true ∧
     (irun codeCfg s1 [.subscribe]).env.st = .CONFIGURED ∧ rootState (irun codeCfg s1 [.subscribe]).f = .ERROR ∧
     (irun codeCfg s1 [.subscribe]).w = .gone := by
@@ -1152,7 +1319,7 @@ theorem C03_limit_watcher_subscribes_after_failure :
 example :
     let s : Sys := { wFresh with w := .parked }
     let e := settle codeCfg 12 (fail codeCfg .EXEC0 s [([0, 0], true)])
-    Fresh s ∧ watcherSubscribed s = true ∧ s.updq ≠ [] ∧ Kind.EXEC0.drives s.env.st = true ∧ critLeafAt s.f [0, 0] = true ∧
+    Fresh s ∧ watcherSubscribed s = true ∧ s.updq ≠ [] ∧ Kind.EXEC0.drives codeCfg s.env.st = true ∧ critLeafAt s.f [0, 0] = true ∧
     quiescent e = true ∧ e.env.st = .ERROR := by
   refine ⟨⟨Or.inl rfl, Or.inl rfl, rfl, fun i hi => by cases hi⟩, ?_⟩
   decide
@@ -1167,7 +1334,7 @@ example :
     let s : Sys := { wRunning with inflight := some { ev := .STOP_ACTIVITY, api := true, pending := [([0, 1], .CONFIGURED)], ok := true } }
     let s1 := settle legacyCfg 10 (failOne legacyCfg .FAILED s [0, 0] true)
     let s2 := settle codeCfg 12 (failOne codeCfg .FAILED s [0, 0] false)
-    Live s ∧ critLeafAt s.f [0, 0] = true ∧ Kind.FAILED.drives s.env.st = true ∧
+    Live s ∧ critLeafAt s.f [0, 0] = true ∧ Kind.FAILED.drives codeCfg s.env.st = true ∧
     quiescent s1 = true ∧ s1.env.st = .ERROR ∧ s1.env.vars.soeor ≠ .empty ∧ s1.env.vars.eoeor ≠ .empty ∧
     quiescent s2 = true ∧ s2.env.st = .ERROR ∧ s2.env.vars.soeor ≠ .empty ∧ s2.env.vars.eoeor ≠ .empty := by
   refine ⟨⟨Or.inr rfl, rfl, fun i hi => by cases hi; decide⟩, ?_⟩
@@ -1233,7 +1400,7 @@ theorem C03_roster_walk_is_fail (c : Cfg) (k : Kind) (W : World) (e : Nat) (ts :
     for a walk that ends at an entry without a parent (`C03_walk_must_cover_every_task`). -/
 def C03_roster_critical_to_error_full (wk : Walk) (c : Cfg) : Prop :=
   ∀ (W : World) (k : Kind) (ts : List (Nat × RTask × Bool)) (e : Nat) (s : Sys) (ls : List (Nat × Label)),
-    W.envs[e]? = some s → Live s → k.drives s.env.st = true →
+    W.envs[e]? = some s → Live s → k.drives c s.env.st = true →
     (∃ i t r, (i, t, r) ∈ ts ∧ t.owner = some e ∧ critLeafAt s.f t.path = true) →
     wvalid c (hitAll wk c k W ts) ls = true →
     (s.chan = none ∨ rootHolds c (fail c k s (victimsFor e ts)) (labelsOf e ls) = true) →
@@ -1245,7 +1412,7 @@ def C03_roster_critical_to_error_full (wk : Walk) (c : Cfg) : Prop :=
     the snapshot + 2) steps; a quiescent world has `e` in ERROR; and a run that brings `e` to
     rest in ERROR exists (the other environments need not move). -/
 theorem C03_roster_critical_to_error (W : World) (k : Kind) (ts : List (Nat × RTask × Bool)) (e : Nat) (s : Sys)
-    (hs : W.envs[e]? = some s) (hlive : Live s) (hk : k.drives s.env.st = true)
+    (hs : W.envs[e]? = some s) (hlive : Live s) (hk : k.drives codeCfg s.env.st = true)
     (hcrit : ∃ i t r, (i, t, r) ∈ ts ∧ t.owner = some e ∧ critLeafAt s.f t.path = true) :
     let W1 := hitAll codeWalk codeCfg k W ts
     W1.envs[e]? = some (fail codeCfg k s (victimsFor e ts)) ∧
@@ -1283,6 +1450,18 @@ theorem C03_roster_critical_to_error_code : C03_roster_critical_to_error_full co
   intro W k ts e s ls hs hlive hk hcrit hv hprem hq
   exact ((C03_roster_critical_to_error W k ts e s hs hlive hk hcrit).2.1 ls hv).2 hprem hq
 
+/-- The roster statement with no hypothesis about the kind: in the code as it is, every kind of
+    failure but exit status 0 — TASK_INTERNAL_ERROR in any environment state included — of a
+    critical task of a live environment of the world brings THAT environment to ERROR, under
+    every interleaving of the internal steps of all environments. -/
+theorem C03_roster_every_failure_to_error_code (W : World) (k : Kind) (ts : List (Nat × RTask × Bool)) (e : Nat) (s : Sys)
+    (ls : List (Nat × Label)) (hs : W.envs[e]? = some s) (hlive : Live s) (hk : k.exitZero = false)
+    (hcrit : ∃ i t r, (i, t, r) ∈ ts ∧ t.owner = some e ∧ critLeafAt s.f t.path = true)
+    (hv : wvalid codeCfg (hitAll codeWalk codeCfg k W ts) ls = true) (hch : s.chan = none)
+    (hq : wquiescent (wrun codeCfg (hitAll codeWalk codeCfg k W ts) ls) = true) :
+    ∃ s', (wrun codeCfg (hitAll codeWalk codeCfg k W ts) ls).envs[e]? = some s' ∧ s'.env.st = .ERROR :=
+  C03_roster_critical_to_error_code W k ts e s ls hs hlive (drives_code k s.env.st hk) hcrit hv (Or.inl hch) hq
+
 /-- An environment none of whose tasks is in the snapshot is not touched by the failure — under
     ANY walk — and its part of every later run of the world is what it would have been. -/
 theorem C03_roster_untouched_env (wk : Walk) (c : Cfg) (k : Kind) (W : World) (ts : List (Nat × RTask × Bool)) (e : Nat)
@@ -1294,7 +1473,7 @@ theorem C03_roster_untouched_env (wk : Walk) (c : Cfg) (k : Kind) (W : World) (t
 
 /-- `fail` on non-critical victims only, kind quiet: nothing but those tasks' own roles changes. -/
 theorem fail_plain_inert (c : Cfg) (k : Kind) (vs : List (List Nat × Bool)) :
-    ∀ s : Sys, (∀ p r, (p, r) ∈ vs → plainLeafAt s.f p = true) → k.quiet s.env.st = true →
+    ∀ s : Sys, (∀ p r, (p, r) ∈ vs → plainLeafAt s.f p = true) → k.quiet c s.env.st false = true →
       (fail c k s vs).env = s.env ∧ (fail c k s vs).w = s.w ∧ (fail c k s vs).chan = s.chan ∧
       (fail c k s vs).inflight = s.inflight ∧ (fail c k s vs).stopReq = s.stopReq ∧ (fail c k s vs).dropped = s.dropped ∧
       S (fail c k s vs).f = S s.f ∧ (∀ l, enabled (fail c k s vs) l = enabled s l) := by
@@ -1313,7 +1492,8 @@ theorem fail_plain_inert (c : Cfg) (k : Kind) (vs : List (List Nat × Bool)) :
       fun l => (b8 l).trans (a8 l)⟩
 
 /-- **An environment none of whose CRITICAL tasks failed stays where it is**: if the entries of
-    the snapshot that belong to `e` are all non-critical (and the kind queues no STOP), then
+    the snapshot that belong to `e` are all non-critical (and the kind queues no STOP for a
+    non-critical task — in the code as it is no kind does: `C03_roster_noncritical_inert_code`), then
     after the walk `e`'s environment machine, watcher, channel, mutex holder and queued requests
     are what they were, the fold of its critical leaves is unchanged, exactly the same internal
     steps are enabled, and an `e` at rest stays at rest: its state can never change as a
@@ -1321,7 +1501,7 @@ theorem fail_plain_inert (c : Cfg) (k : Kind) (vs : List (List Nat × Bool)) :
 theorem C03_roster_noncritical_inert (c : Cfg) (k : Kind) (W : World) (ts : List (Nat × RTask × Bool)) (e : Nat) (s : Sys)
     (hs : W.envs[e]? = some s)
     (hplain : ∀ i t r, (i, t, r) ∈ ts → t.owner = some e → plainLeafAt s.f t.path = true)
-    (hq : k.quiet s.env.st = true) :
+    (hq : k.quiet c s.env.st false = true) :
     ∃ s1, (hitAll codeWalk c k W ts).envs[e]? = some s1 ∧
       s1.env = s.env ∧ s1.w = s.w ∧ s1.chan = s.chan ∧ s1.inflight = s.inflight ∧ s1.stopReq = s.stopReq ∧
       S s1.f = S s.f ∧ (∀ l, enabled s1 l = enabled s l) ∧ quiescent s1 = quiescent s := by
@@ -1331,6 +1511,16 @@ theorem C03_roster_noncritical_inert (c : Cfg) (k : Kind) (W : World) (ts : List
   obtain ⟨b1, b2, b3, b4, b5, _, b7, b8⟩ := fail_plain_inert c k (victimsFor e ts) s hp hq
   refine ⟨fail c k s (victimsFor e ts), by rw [hitAll_env, hs]; rfl, b1, b2, b3, b4, b5, b7, b8, ?_⟩
   simp only [quiescent, b8]
+
+/-- The same for the code as it is with NO hypothesis about the kind: whatever fails — also a
+    non-critical task announcing TASK_INTERNAL_ERROR while its environment is RUNNING. -/
+theorem C03_roster_noncritical_inert_code (k : Kind) (W : World) (ts : List (Nat × RTask × Bool)) (e : Nat) (s : Sys)
+    (hs : W.envs[e]? = some s)
+    (hplain : ∀ i t r, (i, t, r) ∈ ts → t.owner = some e → plainLeafAt s.f t.path = true) :
+    ∃ s1, (hitAll codeWalk codeCfg k W ts).envs[e]? = some s1 ∧
+      s1.env = s.env ∧ s1.w = s.w ∧ s1.chan = s.chan ∧ s1.inflight = s.inflight ∧ s1.stopReq = s.stopReq ∧
+      S s1.f = S s.f ∧ (∀ l, enabled s1 l = enabled s l) ∧ quiescent s1 = quiescent s :=
+  C03_roster_noncritical_inert codeCfg k W ts e s hs hplain (quiet_code k s.env.st)
 
 /-- What the per-task body does to an entry WITHOUT a parent role: no environment is touched;
     the entry's own state/status change as `looseEffect` says (executor / agent lost: ERROR,
